@@ -15,6 +15,9 @@ def _dump(evs, path):
             fh.write(json.dumps(e, separators=(",", ":")) + "\n")
 
 
+SIGN = 99   # marker in a bit list: the word is negative
+
+
 def words_to_file(words, path, id_prefix="w"):
     """words: list of bit-index lists"""
     from code_data._flags_data import from_flags_data, to_flags_data
@@ -24,7 +27,10 @@ def words_to_file(words, path, id_prefix="w"):
     for i, bits in enumerate(words):
         w = 0
         for b in bits:
-            w |= 1 << b
+            if b != SIGN:
+                w |= 1 << b
+        if SIGN in bits:
+            w |= -(1 << 31)          # a NEGATIVE word (3.7 builds code objects with negative co_flags): every bit >= 31 set
         e = {"id": "%s:%s:%d" % (id_prefix, VER, i), "kind": "word", "ver": VER, "bits": bits,
              "names": [], "exc": "", "back": [], "exc2": ""}
         try:
